@@ -69,6 +69,33 @@ REGISTRY = {
         "nontrivial_rule": "as C01; range queries with empty/extreme/inverted bounds, prefixes and limits 0,1,2,1000 are part of every sequence",
         "assumptions": ["crossbeam_skiplist::SkipMap iteration is modelled as the sorted binding list", "the concurrent clauses are not decided by this check"],
     },
+    "C02": {
+        "title": "acknowledged data survives any later crash",
+        "teq": [
+            {"engine": "crash", "quick": {"n": 1, "points": 12}, "thorough": {"tier": "thorough"}, "oracle": True, "mismatch_is_failure": False, "timeout": 3400,
+             "nontrivial": lambda case, res: "plan=" in case and not case.endswith("none") and res.startswith("ok") and "keys=-" not in res,
+             "distinct_key": lambda case, res: res,
+             "what": "real workloads (1-8 shards' worth of workers, io_uring and forced-pwrite paths, periodic flusher, explicit flushes, clean close) traced through hook H1; (a) T-run: the Coq monitor must accept the real device history (journal discipline R1-R3); (b) crash images = every sampled trace prefix x subsets of the un-synced writes x sector-granular tearing, each reopened by the real code in a child process and by Model.Recovery.open_image (must agree, incl. file bytes after recovery); (c) oracle on the real reopen: it opens, every key is in its window [state at the last acknowledgement before the cut .. latest invoked], nothing never written surfaces, len = keys"},
+            {"engine": "f3", "quick": {"tries": 1}, "thorough": {"tries": 3}, "oracle": True, "mismatch_is_failure": False,
+             "nontrivial": lambda case, res: res.startswith("ok"),
+             "what": "directed replay of finding F3 (split retired extent, hook H6 holds one worker between allocation and the device lock, process killed)"},
+        ],
+        "nontrivial_rule": "a case is one crash image of one traced workload (or one whole trace for the monitor); non-trivial = at least one un-synced write applied and at least one key recovered; distinct by 64-bit hash of the recovered contents line",
+        "assumptions": ["A2 sector atomicity (512 B), A3 fsync contract, A1 checksum detection for torn journal slots (DESIGN section 4)",
+                        "the theorems are over the abstract device of Model/Device.v (cells = extents); block-level scan alignment is covered by the image correspondence, not proved",
+                        "crash images are rebuilt from the H1 write trace (no real power failure)"],
+    },
+    "C03": {
+        "title": "any crash leaves a file that reopens to authentic, untorn, recent contents",
+        "teq": [
+            {"engine": "crash", "quick": {"n": 1, "points": 12, "hostile": 1, "seedoff": 3}, "thorough": {"tier": "thorough", "hostile": 1, "seedoff": 3}, "oracle": True, "mismatch_is_failure": False, "timeout": 3400,
+             "nontrivial": lambda case, res: "plan=" in case and not case.endswith("none") and res.startswith("ok") and "keys=-" not in res,
+             "distinct_key": lambda case, res: res,
+             "what": "as C02, with hostile values: multi-block values whose later blocks are byte-exact retirement markers (valid marker token for a plausible sector) or record heads of other keys with far-future timestamps stamped with a valid token"},
+        ],
+        "nontrivial_rule": "as C02",
+        "assumptions": ["as C02"],
+    },
     "C10": {
         "title": "documented v1/v2/v3 layout",
         "teq": [
